@@ -165,3 +165,64 @@ func verifHarnessUnifyExact() {
 		verifAssert(verifResultIsAtom(v4, p, maxExp), "A03.3-pinned-atom-is-the-only-one")
 	}
 }
+
+
+// C01 / A01.2 on three non-concrete conjuncts: every permutation of a type and
+// bounds gives the same error status (e.g. int & >=1.5 & <=1.6 fails in every
+// order), and whenever some order fails no atom satisfies all three.
+func verifHarnessUnifyOrder3() {
+	digits := verifParam("DIGITS", 1)
+	maxExp := verifParam("EXP", 1)
+	var cs [3]verifConj
+	for i := range cs {
+		if i == 0 && verifParam("FIRSTINT", 0) == 1 {
+			// quick tier: one conjunct is the type int (integer tightening of the
+			// other two is where order sensitivity can arise); PERMS moves it around
+			cs[i] = verifConj{val: &BasicType{K: IntKind}, kind: 1, types: IntKind}
+			continue
+		}
+		if verifChoice(3) == 0 {
+			k := []Kind{IntKind, FloatKind, NumberKind}[verifChoice(3)]
+			cs[i] = verifConj{val: &BasicType{K: k}, kind: 1, types: k}
+			continue
+		}
+		n := &Num{}
+		if verifChoice(2) == 0 {
+			n.K, n.X = IntKind, verifDec("c", digits, 0)
+		} else {
+			// half-unit fractions (exponent -1): what integer tightening is about
+			n.K, n.X = FloatKind, verifDec("c", digits, 0)
+			n.X.Exponent = -1
+		}
+		// non-negative operands keep the space small; signs are covered by UnifyExact
+		verifAssume(!n.X.Negative)
+		op := verifNumOps[verifChoice(5)] // < <= > >= !=
+		cs[i] = verifConj{val: &BoundValue{Op: op, Value: n}, kind: 2, atom: verifAtom{kind: n.K, num: n}, op: op}
+	}
+	perms := [6][3]int{{0, 1, 2}, {2, 1, 0}, {1, 2, 0}, {0, 2, 1}, {1, 0, 2}, {2, 0, 1}}
+	np := verifParam("PERMS", 3)
+	var errs [6]bool
+	for i, pm := range perms[:np] {
+		v := verifUnify(verifNewCtx(), cs[pm[0]].val, cs[pm[1]].val, cs[pm[2]].val)
+		errs[i] = verifIsErr(v)
+	}
+	verifReach("permuted")
+	for i := 1; i < np; i++ {
+		verifAssert(errs[i] == errs[0], "A01.2-three-conjuncts-same-error-status-in-every-order")
+	}
+	if errs[0] {
+		p := verifNumProbe(NumberKind, digits+1, maxExp)
+		pa := verifAtom{kind: FloatKind}
+		_ = pa
+		sat := true
+		for _, c := range cs {
+			switch c.kind {
+			case 1:
+				sat = verifAnd(sat, verifOr(verifAnd(p.isInt, c.types&IntKind != 0), verifAnd(verifNot(p.isInt), c.types&FloatKind != 0)))
+			default:
+				sat = verifAnd(sat, verifSatNumBoundProbe(c.op, c.atom.num, p, maxExp))
+			}
+		}
+		verifAssert(verifNot(sat), "A03.3-three-conjuncts-bottom-only-if-unsatisfiable")
+	}
+}
